@@ -398,7 +398,7 @@ def run_part(pid, part, tier, report, known):
         status, text = confirm_native(pid, key)
         rec = {'engine': 'mir', 'property': pid, 'key': key, 'failed_obligations': obs, 'native_confirmation': status,
                'native_output': text[-2000:], 'how_to_replay': 'python3-vt run_check.py --replay <this file> re-runs the symbolic execution of the functions behind this key on the current tree and the native confirmation'}
-        path = os.path.join(evdir, '%s_%s.json' % (pid, re.sub(r'\W+', '_', key)))
+        path = os.path.join(evdir, '%s_mir_%s.json' % (pid, re.sub(r'\W+', '_', key)))
         json.dump(rec, open(path, 'w'), indent=1)
         report['counterexamples'].append({'key': key, 'obligations': [o['name'] + (': ' + o['detail'] if o['detail'] else '') for o in obs][:6], 'native_confirmation': status})
         if status == 'refuted':
@@ -421,3 +421,591 @@ def run_part(pid, part, tier, report, known):
                      'mir_dump_s': round(ctx.dump_s, 1), 'wall_s': round(time.time() - t0, 1),
                      'loop_unrolling': 3, 'failed': [o['name'] for o in failed][:20]}
     return violations, known_hits, incon
+
+
+# ================================================================================================
+# generic helpers for forwarding / loop shaped bodies
+
+def fidx(path, struct, field):
+    """MIR field index (= declaration order) of `field` in `struct` defined in /repo/<path>."""
+    src = open(os.path.join('/repo', path)).read()
+    m = re.search(r'struct %s\b[^{;]*\{(.*?)\n\}' % re.escape(struct), src, re.S)
+    if not m:
+        raise M.Unsupported('struct %s not found in %s' % (struct, path))
+    names = []
+    for ln in m.group(1).split('\n'):
+        mm = re.match(r'\s*(?:pub(?:\([^)]*\))?\s+)?(\w+)\s*:', ln)
+        if mm and not ln.strip().startswith(('//', '#')):
+            names.append(mm.group(1))
+    # cfg-gated fields keep their position when the feature is on (default features in the dump)
+    if field not in names:
+        raise M.Unsupported('field %s not in struct %s' % (field, struct))
+    return names.index(field)
+
+
+def self_field(i, by_ref=True, param=1):
+    """term of `&mut self.field_i` (by_ref) or of `self.field_i` moved out of a by-value self"""
+    if by_ref:
+        return M.f_ref(M.f_fld(M.f_deref(P(param)), i))
+    return M.f_fld(P(param), i)
+
+
+NOISE = r"as Deref(Mut)?>::deref(_mut)?$|core::fmt::|Arguments::<|::type_name::<|^drop$|tynm::|as Borrow<|eprint"
+
+
+def sig(o, noise=NOISE):
+    return [e for e in o.trace if not re.search(noise, e.callee)]
+
+
+def match_calls(ctx, key, what, o, pats, noise=NOISE):
+    cs = sig(o, noise)
+    ok = len(cs) == len(pats) and all(re.search(p, e.callee) for e, p in zip(cs, pats))
+    ctx.ob(key, '%s: calls are exactly %s' % (what, [p[:50] for p in pats]), ok, '' if ok else 'got %s' % [e.callee[:90] for e in cs])
+    return cs if ok else None
+
+
+def arg_is(ctx, key, what, e, i, term):
+    ok = i < len(e.args) and ctx.valid(what, e.args[i] == term)
+    ctx.ob(key, '%s: argument %d of %s is %s' % (what, i, e.callee[:50], term), ok, '' if ok else 'got %s' % (e.args[i] if i < len(e.args) else 'nothing'))
+    return ok
+
+
+def loop_spec(ctx, key, what, fn, prefix, iter_pat, iterable, body_pat, body_extra_args=(), min_paths=3):
+    """Body = prefix calls; into_iter/iter_mut(iterable); then per item exactly one body call on that item.
+    Checked on every path up to the unrolling bound (0..k items)."""
+    outs = ctx.run(fn)
+    rets = returns(outs)
+    ok_n = len(rets) >= min_paths and all(o.kind in ('return', 'bound') for o in outs)
+    ctx.ob(key, '%s: only normal paths (one per item count up to the unrolling bound)' % what, ok_n, '%d return, kinds %s' % (len(rets), sorted(set(o.kind + ':' + o.detail[:30] for o in outs))))
+    all_ok = True
+    for o in rets:
+        cs = sig(o)
+        n_pre = len(prefix)
+        ok = len(cs) >= n_pre + 2 and all(re.search(p, e.callee) for e, p in zip(cs, prefix)) and re.search(iter_pat, cs[n_pre].callee)
+        if ok and iterable is not None:
+            ok = ctx.valid(what + ' iterable', cs[n_pre].args[0] == iterable)
+        rest = cs[n_pre + 1:] if ok else []
+        # rest = next, (body, next)*
+        k = 0
+        items = []
+        while ok and k < len(rest):
+            if not re.search(r'as Iterator>::next$', rest[k].callee):
+                ok = False
+                break
+            if k + 1 < len(rest):
+                b = rest[k + 1]
+                item = M.f_fld(M.mk_fn('as_Some', 1)(rest[k].result), 0)
+                # the body operates on the yielded item (possibly through `&mut **item`)
+                if not re.search(body_pat, b.callee) or not (ctx.valid(what + ' item', b.args[0] == item) or term_contains(b.args[0], item)):
+                    ok = False
+                    break
+                for j, t in enumerate(body_extra_args):
+                    if not ctx.valid(what + ' extra', b.args[1 + j] == t):
+                        ok = False
+                items.append(b)
+            k += 2
+        if not ok:
+            all_ok = False
+            ctx.ob(key, '%s: shape prefix; iterate; one body call per item' % what, False, 'path: %s' % [e.callee[:70] for e in cs])
+            break
+    if all_ok:
+        ctx.ob(key, '%s: %s, then exactly one %s per item of the iterated collection, nothing else' % (what, [p[:40] for p in prefix] or 'no prefix', body_pat[:50]), True)
+    return all_ok
+
+
+def term_contains(t, sub):
+    if t.eq(sub):
+        return True
+    return any(term_contains(c, sub) for c in t.children())
+
+
+def final_heap(o, base_term, path):
+    """value written to a place behind an opaque pointer, or None"""
+    slots = o.st.store.get(('H', str(base_term)), {})
+    return slots.get(tuple(path))
+
+
+# ================================================================================================
+# builder glue: C02 C03 C04 C07 C11 C12 C18
+
+BUILDER = r"^src/dispatch/builder.rs: impl<'a, 'b> DispatcherBuilder<'a, 'b>"
+SB = r"^src/dispatch/stage.rs: impl<'a> StagesBuilder<'a>"
+
+
+def spec_add_barrier(ctx):
+    key = 'builder-add_barrier'
+    i_sb = fidx('src/dispatch/builder.rs', 'DispatcherBuilder', 'stages_builder')
+    o = straight(ctx, key, ctx.one(BUILDER, 'add_barrier'), 'DispatcherBuilder::add_barrier')
+    if o:
+        cs = match_calls(ctx, key, 'DispatcherBuilder::add_barrier', o, [r'^StagesBuilder::<.*>::add_barrier$'])
+        if cs:
+            arg_is(ctx, key, 'DispatcherBuilder::add_barrier', cs[0], 0, self_field(i_sb))
+    o = straight(ctx, key, ctx.one(BUILDER, 'with_barrier'), 'DispatcherBuilder::with_barrier')
+    if o:
+        match_calls(ctx, key, 'DispatcherBuilder::with_barrier', o, [r'DispatcherBuilder::<.*>::add_barrier$'])
+    i_bar = fidx('src/dispatch/stage.rs', 'StagesBuilder', 'barrier')
+    i_st = fidx('src/dispatch/stage.rs', 'StagesBuilder', 'stages')
+    o = straight(ctx, key, ctx.one(SB, 'add_barrier'), 'StagesBuilder::add_barrier')
+    if o:
+        cs = match_calls(ctx, key, 'StagesBuilder::add_barrier', o, [r'^Vec::<Stage<.*>>::len$'])
+        if cs:
+            arg_is(ctx, key, 'StagesBuilder::add_barrier', cs[0], 0, self_field(i_st))
+            v = final_heap(o, M.f_deref(P(1)), [i_bar])
+            ok = v is not None and ctx.valid('barrier := stages.len()', to_term(v) == cs[0].result)
+            ctx.ob(key, 'StagesBuilder::add_barrier: barrier := number of stages that exist now', ok, repr(v))
+
+
+def spec_add(ctx):
+    key = 'builder-add'
+    f = ctx.one(BUILDER, 'add')
+    outs = ctx.run(f)
+    i_sb = fidx('src/dispatch/builder.rs', 'DispatcherBuilder', 'stages_builder')
+    i_map = fidx('src/dispatch/builder.rs', 'DispatcherBuilder', 'map')
+    rets, divs = returns(outs), [o for o in outs if o.kind == 'diverge']
+    ctx.ob(key, 'add: two normal paths (empty name / fresh name) and one rejection (name already used)', len(rets) == 2 and len(divs) == 1 and len(outs) == 3,
+           str([(o.kind, o.detail, o.st.decisions) for o in outs]))
+    for o in outs:
+        cs = sig(o)
+        names = [e.callee for e in cs]
+        ids = [e for e in cs if re.search(r'DispatcherBuilder::<.*>::next_id$', e.callee)]
+        coll = [i for i, e in enumerate(cs) if re.search(r'as Iterator>::collect::<SmallVec<\[SystemId; 4\]>>$', e.callee)]
+        mp = [i for i, e in enumerate(cs) if re.search(r'HashMap::<String, SystemId.*>::entry$|VacantEntry::<.*>::insert$', e.callee)]
+        ins = [e for e in cs if re.search(r'^StagesBuilder::<.*>::insert::<T>$', e.callee)]
+        ok = len(ids) == 1 and len(coll) == 1
+        ctx.ob(key, 'add: takes exactly one fresh id and resolves the dependency list exactly once on every path', ok, str(names))
+        if not ok:
+            continue
+        # dependencies are resolved before the new name enters the map (C18: self-dependency is "not registered")
+        ctx.ob(key, 'add: the dependency names are resolved before the name map is touched', all(i > coll[0] for i in mp), str(names))
+        mapc = [e for e in cs if re.search(r'as Iterator>::map::<SystemId, \{closure@src/dispatch/builder.rs', e.callee)]
+        it = [e for e in cs if re.search(r'impl \[&str\]>::iter$', e.callee)]
+        ok = len(mapc) == 1 and len(it) == 1 and ctx.valid('deps iter', it[0].args[0] == P(4)) and ctx.valid('deps map', mapc[0].args[0] == it[0].result) \
+            and ctx.valid('deps collect', cs[coll[0]].args[0] == mapc[0].result)
+        ctx.ob(key, 'add: dependencies = dep.iter().map(lookup).collect() over the dep slice passed in', ok)
+        if o.kind == 'return':
+            ok = len(ins) == 1 and ctx.valid('insert self', ins[0].args[0] == self_field(i_sb)) and ctx.valid('insert deps', ins[0].args[1] == cs[coll[0]].result) \
+                and ctx.valid('insert id', ins[0].args[2] == ids[0].result) and ctx.valid('insert sys', ins[0].args[3] == P(2)) and cs[-1] is ins[0]
+            ctx.ob(key, 'add: ends with stages_builder.insert(resolved deps, the fresh id, the system)', ok, str(names))
+            ent = [e for e in cs if re.search(r'::entry$', e.callee)]
+            vac = [e for e in cs if re.search(r'VacantEntry::<.*>::insert$', e.callee)]
+            if ent:
+                ok = len(vac) == 1 and ctx.valid('map id', vac[0].args[1] == ids[0].result)
+                ctx.ob(key, 'add: a fresh non-empty name is recorded with the same id that is handed to insert', ok, str(names))
+            else:
+                ctx.ob(key, 'add: the empty name never touches the name map', not mp, str(names))
+        else:
+            ok = not ins and re.search(r'panic', o.detail) is not None
+            ctx.ob(key, 'add: a reused name panics before anything is inserted', ok, o.detail)
+            txt = ' '.join(a.text for e in o.trace for a in e.argvals if isinstance(a, Cst))
+            ctx.ob(key, 'add: the duplicate-name message quotes the name', 'Cannot insert multiple systems with the same name' in txt and
+                   any(re.search(r'new_display::<&str>$', e.callee) and ctx.valid('msg arg', e.args[0] == M.f_ref(z3.Const('local__3', V))) for e in o.trace), txt[:200])
+    # is_empty decides between the two normal paths; entry is taken on the owned copy of the name
+    # dependency lookup closure: *map.get(name).unwrap_or_else(panic quoting the name)
+    c0 = ctx.one(BUILDER, 'add::{closure#0}') if ctx.find(BUILDER, 'add::{closure#0}', optional=True) else None
+    cl = [f2 for f2 in ctx.fns() if f2.name.endswith('::add::{closure#0}') and 'builder.rs' in f2.name]
+    cl2 = [f2 for f2 in ctx.fns() if f2.name.endswith('::add::{closure#0}::{closure#0}') and 'builder.rs' in f2.name]
+    ctx.ob(key, 'add: lookup closure and its panic closure present', len(cl) == 1 and len(cl2) == 1)
+    if len(cl) == 1:
+        o = straight(ctx, key, cl[0], 'add::lookup')
+        if o:
+            cs = match_calls(ctx, key, 'add::lookup', o, [r'HashMap::<String, SystemId.*>::get::<str>$', r'Option::<&SystemId>::unwrap_or_else::<'])
+            if cs:
+                ctx.ob(key, 'add::lookup: the id returned is the one stored under that name', ctx.valid('lookup', cs[1].args[0] == cs[0].result))
+    if len(cl2) == 1:
+        outs2 = ctx.run(cl2[0])
+        ok = len(outs2) == 1 and outs2[0].kind == 'diverge'
+        txt = ' '.join(a.text for e in outs2[0].trace for a in e.argvals if isinstance(a, Cst)) if outs2 else ''
+        ctx.ob(key, 'add::lookup: an unknown dependency panics with "No such system registered" quoting it', ok and 'No such system registered' in txt, txt[:200])
+    o = straight(ctx, key, ctx.one(BUILDER, 'next_id'), 'next_id')
+    if o:
+        i_cur = fidx('src/dispatch/builder.rs', 'DispatcherBuilder', 'current_id')
+        v = final_heap(o, M.f_deref(P(1)), [i_cur])
+        ok = v is not None and 'op_Add' in str(to_term(v)) and isinstance(o.value, Agg) and ctx.valid('id', to_term(o.value.fields[0]) == M.f_fld(M.f_deref(P(1)), i_cur))
+        ctx.ob(key, 'next_id: returns the current counter and increments it (ids are never reused)', ok, '%r / %r' % (o.value, v))
+    for nm in ('with',):
+        o = straight(ctx, key, ctx.one(BUILDER, nm), nm)
+        if o:
+            match_calls(ctx, key, 'DispatcherBuilder::with', o, [r'DispatcherBuilder::<.*>::add::<T>$'])
+
+
+def spec_add_batch(ctx):
+    key = 'builder-add_batch'
+    f = ctx.one(BUILDER, 'add_batch')
+    o = straight(ctx, key, f, 'add_batch')
+    if not o:
+        return
+    i_sb = fidx('src/dispatch/builder.rs', 'DispatcherBuilder', 'stages_builder')
+    i_tp = fidx('src/dispatch/builder.rs', 'DispatcherBuilder', 'thread_pool')
+    cs = sig(o)
+    def one(pat):
+        l = [e for e in cs if re.search(pat, e.callee)]
+        return l[0] if len(l) == 1 else None
+    far, faw = one(r'StagesBuilder::<.*>::fetch_all_reads$'), one(r'StagesBuilder::<.*>::fetch_all_writes$')
+    cr, cw = one(r"BatchSystemData as (system::)?SystemData<'_>>::reads$"), one(r"BatchSystemData as (system::)?SystemData<'_>>::writes$")
+    acc, bld = one(r'^BatchAccessor::new$'), one(r'^DispatcherBuilder::<.*>::build$')
+    cre, add = one(r'^BatchControllerSystem::<.*>::create$'), one(r'^DispatcherBuilder::<.*>::add::<BatchControllerSystem<')
+    ok = all(x is not None for x in (far, faw, cr, cw, acc, bld, cre, add))
+    ctx.ob(key, 'add_batch: collects inner reads/writes and controller reads/writes once each, builds one accessor, one inner dispatcher, one wrapper, registers it once', ok, str([e.callee[:60] for e in cs]))
+    if not ok:
+        return
+    inner_sb = M.f_ref(M.f_fld(z3.Const('local__3', V), i_sb))
+    ctx.ob(key, 'add_batch: reads/writes are collected from the inner builder that was passed in', ctx.valid('far', far.args[0] == inner_sb) and ctx.valid('faw', faw.args[0] == inner_sb))
+    r, w = f_seqof(far.result), f_seqof(cr.result)
+    okr = ctx.valid('batch reads', z3.Or(f_seqof(acc.args[0]) == z3.Concat(f_seqof(far.result), f_seqof(cr.result)), f_seqof(acc.args[0]) == z3.Concat(f_seqof(cr.result), f_seqof(far.result))),
+                    [z3.ForAll([z3.Const('s', SeqR)], f_seqof(M.f_seqval(z3.Const('s', SeqR))) == z3.Const('s', SeqR))])
+    okw = ctx.valid('batch writes', z3.Or(f_seqof(acc.args[1]) == z3.Concat(f_seqof(faw.result), f_seqof(cw.result)), f_seqof(acc.args[1]) == z3.Concat(f_seqof(cw.result), f_seqof(faw.result))),
+                    [z3.ForAll([z3.Const('s', SeqR)], f_seqof(M.f_seqval(z3.Const('s', SeqR))) == z3.Const('s', SeqR))])
+    ctx.ob(key, 'add_batch: accessor reads = inner reads ++ controller reads (reads slot)', okr, str(acc.args[0]))
+    ctx.ob(key, 'add_batch: accessor writes = inner writes ++ controller writes (writes slot)', okw, str(acc.args[1]))
+    # nothing but sort / dedup may touch the two lists before they are frozen
+    allowed = r'fetch_all_(reads|writes)$|SystemData<\'_>>::(reads|writes)$|impl \[(world::)?ResourceId\]>::sort(_unstable)?$|Vec::<(world::)?ResourceId>::dedup$|^BatchAccessor::new$|DispatcherBuilder::<.*>::build$|BatchControllerSystem::<.*>::create$|DispatcherBuilder::<.*>::add::<|as Clone>::clone$'
+    extra = [e.callee for e in cs if not re.search(allowed, e.callee)]
+    ctx.ob(key, 'add_batch: the collected lists are only sorted and de-duplicated (membership preserving) before they are frozen', not extra, str(extra))
+    ctx.ob(key, 'add_batch: both lists are sorted and de-duplicated', len([e for e in cs if re.search(r'>::sort(_unstable)?$', e.callee)]) == 2 and len([e for e in cs if re.search(r'::dedup$', e.callee)]) == 2)
+    ctx.ob(key, 'add_batch: the inner dispatcher is built from the inner builder', ctx.valid('bld', bld.args[0] == P(3)) or 'local__3' in str(bld.args[0]), str(bld.args[0]))
+    ok = ctx.valid('create acc', cre.args[0] == acc.result) and ctx.valid('create ctl', cre.args[1] == P(2)) and ctx.valid('create disp', cre.args[2] == bld.result)
+    ctx.ob(key, 'add_batch: wrapper = create(that accessor, the controller, that inner dispatcher)', ok)
+    ok = ctx.valid('add self', add.args[0] == P(1)) and ctx.valid('add sys', add.args[1] == cre.result) and ctx.valid('add name', add.args[2] == P(4)) and ctx.valid('add dep', add.args[3] == P(5))
+    ctx.ob(key, 'add_batch: the wrapper is registered through the ordinary add with the given name and dependencies', ok)
+    # C11: the inner builder shares the outer pool handle
+    cl = one(r'^<Arc<std::sync::RwLock<Option<Arc<(rayon::)?ThreadPool>>>> as Clone>::clone$')
+    v = o.st.store.get(('L', '_3'), {}).get((i_tp,))
+    ok = cl is not None and ctx.valid('pool src', cl.args[0] == self_field(i_tp)) and v is not None and ctx.valid('pool dst', to_term(v) == cl.result) \
+        and cs.index(cl) < cs.index(bld)
+    ctx.ob(key, 'add_batch: the inner builder\'s pool handle is replaced by a clone of the outer Arc before it is built (shared pool)', ok, repr(v))
+    o2 = straight(ctx, key, ctx.one(BUILDER, 'with_batch'), 'with_batch')
+    if o2:
+        match_calls(ctx, key, 'with_batch', o2, [r'DispatcherBuilder::<.*>::add_batch::<T>$'])
+
+
+def spec_batch_wrapper(ctx):
+    key = 'batch-wrapper'
+    BCS = r"System<'c> for BatchControllerSystem<'a, 'b, C>"
+    i_acc = fidx('src/dispatch/batch.rs', 'BatchControllerSystem', 'accessor')
+    i_ctl = fidx('src/dispatch/batch.rs', 'BatchControllerSystem', 'controller')
+    i_dsp = fidx('src/dispatch/batch.rs', 'BatchControllerSystem', 'dispatcher')
+    o = straight(ctx, key, ctx.one(BCS, 'run'), 'BatchControllerSystem::run')
+    if o:
+        cs = match_calls(ctx, key, 'BatchControllerSystem::run', o, [r"^<C as BatchController<'_, '_, '_>>::run$"])
+        if cs:
+            arg_is(ctx, key, 'run', cs[0], 0, self_field(i_ctl))
+            arg_is(ctx, key, 'run', cs[0], 1, M.f_fld(P(2), 0))
+            arg_is(ctx, key, 'run', cs[0], 2, self_field(i_dsp))
+    o = straight(ctx, key, ctx.one(BCS, 'accessor'), 'BatchControllerSystem::accessor')
+    if o:
+        ok = not sig(o) and isinstance(o.value, Agg) and o.value.variant == 'Ref' and ctx.valid('acc', to_term(o.value.fields[0]) == self_field(i_acc))
+        ctx.ob(key, 'BatchControllerSystem::accessor: hands out the frozen accessor by reference, computes nothing', ok, repr(o.value))
+    o = straight(ctx, key, ctx.one(BCS, 'running_time'), 'BatchControllerSystem::running_time')
+    if o:
+        match_calls(ctx, key, 'BatchControllerSystem::running_time', o, [r"^<C as BatchController<'_, '_, '_>>::running_time$"])
+    BA = r'Accessor for BatchAccessor'
+    for nm, idx in (('reads', fidx('src/dispatch/batch.rs', 'BatchAccessor', 'reads')), ('writes', fidx('src/dispatch/batch.rs', 'BatchAccessor', 'writes'))):
+        o = straight(ctx, key, ctx.one(BA, nm), 'BatchAccessor::' + nm)
+        if o:
+            ok = not sig(o) and isinstance(o.value, SeqV) and ctx.valid('ba ' + nm, o.value.seq == f_seqof(M.f_fld(M.f_deref(P(1)), idx)))
+            ctx.ob(key, 'BatchAccessor::%s returns a copy of the %s it was built with' % (nm, nm), ok, repr(o.value))
+    o = straight(ctx, key, ctx.one(r'^src/dispatch/batch.rs: impl BatchAccessor', 'new'), 'BatchAccessor::new')
+    if o:
+        ok = isinstance(o.value, Agg) and not sig(o) and ctx.valid('new r', to_term(o.value.fields[fidx('src/dispatch/batch.rs', 'BatchAccessor', 'reads')]) == P(1)) \
+            and ctx.valid('new w', to_term(o.value.fields[fidx('src/dispatch/batch.rs', 'BatchAccessor', 'writes')]) == P(2))
+        ctx.ob(key, 'BatchAccessor::new stores (reads, writes) in that order', ok, repr(o.value))
+    BU = r"DynamicSystemData<'a> for BatchUncheckedWorld<'a>"
+    o = straight(ctx, key, ctx.one(BU, 'fetch'), 'BatchUncheckedWorld::fetch')
+    if o:
+        ok = not sig(o) and isinstance(o.value, Agg) and ctx.valid('buw', to_term(o.value.fields[0]) == P(2))
+        ctx.ob(key, 'BatchUncheckedWorld::fetch borrows nothing and wraps the world', ok, repr(o.value))
+    o = straight(ctx, key, ctx.one(BU, 'setup'), 'BatchUncheckedWorld::setup')
+    if o:
+        ctx.ob(key, 'BatchUncheckedWorld::setup does nothing', not sig(o))
+    cre = [f for f in ctx.fns() if f.short == 'create' and 'batch.rs' in f.name]
+    if len(cre) == 1:
+        o = straight(ctx, key, cre[0], 'BatchControllerSystem::create')
+        if o:
+            ok = isinstance(o.value, Agg) and not sig(o) and all(ctx.valid('create', to_term(o.value.fields[i]) == P(j)) for i, j in ((i_acc, 1), (i_ctl, 2), (i_dsp, 3)))
+            ctx.ob(key, 'BatchControllerSystem::create stores accessor, controller, dispatcher unchanged', ok, repr(o.value))
+
+
+def spec_batch_setup_dispose(ctx):
+    BCS = r"System<'c> for BatchControllerSystem<'a, 'b, C>"
+    i_dsp = fidx('src/dispatch/batch.rs', 'BatchControllerSystem', 'dispatcher')
+    key = 'batch-setup'
+    o = straight(ctx, key, ctx.one(BCS, 'setup'), 'BatchControllerSystem::setup')
+    if o:
+        cs = match_calls(ctx, key, 'BatchControllerSystem::setup', o, [r"World::setup::<'_, <C as BatchController<'_, '_, '_>>::BatchSystemData>$", r'^Dispatcher::<.*>::setup$'])
+        if cs:
+            arg_is(ctx, key, 'setup', cs[0], 0, P(2))
+            arg_is(ctx, key, 'setup', cs[1], 0, self_field(i_dsp))
+            arg_is(ctx, key, 'setup', cs[1], 1, P(2))
+    key = 'batch-dispose'
+    fs = ctx.find(BCS, 'dispose', optional=True)
+    ctx.ob(key, 'BatchControllerSystem overrides System::dispose (the default does nothing, so systems inside a batch would never be disposed)', len(fs) == 1,
+           'no dispose in impl System for BatchControllerSystem' if not fs else '')
+    if len(fs) == 1:
+        o = straight(ctx, key, fs[0], 'BatchControllerSystem::dispose')
+        if o:
+            cs = match_calls(ctx, key, 'BatchControllerSystem::dispose', o, [r'^Dispatcher::<.*>::dispose$'])
+            if cs:
+                arg_is(ctx, key, 'dispose', cs[0], 0, M.f_fld(P(1), i_dsp))
+                arg_is(ctx, key, 'dispose', cs[0], 1, P(2))
+
+
+def spec_forwarders(ctx):
+    """RunNow blanket impl, Dispatcher / SendDispatcher / Stage fan-out (C04, C12, C13)."""
+    key = 'runnow-blanket'
+    RN = r"^src/system.rs: impl<'a, T> RunNow<'a> for T"
+    o = straight(ctx, key, ctx.one(RN, 'setup'), 'RunNow::setup')
+    if o:
+        cs = match_calls(ctx, key, '<T as RunNow>::setup', o, [r"^<T as (system::)?System<'_>>::setup$"])
+        if cs:
+            arg_is(ctx, key, 'setup', cs[0], 0, P(1)); arg_is(ctx, key, 'setup', cs[0], 1, P(2))
+    outs = ctx.run(ctx.one(RN, 'dispose'))
+    rets = returns(outs)
+    ok = len(rets) >= 1 and all(len([e for e in sig(r) if re.search(r"^<T as (system::)?System<'_>>::dispose$", e.callee)]) == 1 for r in rets)
+    ctx.ob(key, '<T as RunNow>::dispose hands the unboxed system to System::dispose exactly once', ok, str([[e.callee for e in sig(r)] for r in rets][:2]))
+    for r in rets:
+        for e in sig(r):
+            if re.search(r"System<'_>>::dispose$", e.callee):
+                ctx.ob(key, '<T as RunNow>::dispose passes the world on', ctx.valid('dispose world', e.args[1] == P(2)))
+    o = straight(ctx, key, ctx.one(RN, 'run_now'), 'RunNow::run_now')
+    if o:
+        cs = match_calls(ctx, key, '<T as RunNow>::run_now', o, [r"^<T as (system::)?System<'_>>::accessor$", r"SystemData as DynamicSystemData<'_>>::fetch$", r"^<T as (system::)?System<'_>>::run$"])
+        if cs:
+            ctx.ob(key, 'run_now: fetches from the world passed in and runs the system on exactly that data', ctx.valid('rn', cs[1].args[1] == P(2)) and ctx.valid('rn2', cs[2].args[0] == P(1)) and ctx.valid('rn3', cs[2].args[1] == cs[1].result))
+    # Dispatcher
+    D = r"^src/dispatch/dispatcher.rs: impl<'a> Dispatcher<'a, '_>"
+    i_in = fidx('src/dispatch/dispatcher.rs', 'Dispatcher', 'inner')
+    i_tl = fidx('src/dispatch/dispatcher.rs', 'Dispatcher', 'thread_local')
+    key = 'dispatcher-dispatch'
+    o = straight(ctx, key, ctx.one(D, 'dispatch'), 'Dispatcher::dispatch')
+    if o:
+        cs = match_calls(ctx, key, 'Dispatcher::dispatch', o, [r'^SendDispatcher::<.*>::dispatch$', r'^Dispatcher::<.*>::dispatch_thread_local$'])
+        if cs:
+            arg_is(ctx, key, 'dispatch', cs[0], 0, self_field(i_in)); arg_is(ctx, key, 'dispatch', cs[0], 1, P(2))
+            arg_is(ctx, key, 'dispatch', cs[1], 0, P(1)); arg_is(ctx, key, 'dispatch', cs[1], 1, P(2))
+    for nm, tgt in (('dispatch_par', r'^SendDispatcher::<.*>::dispatch_par$'), ('dispatch_seq', r'^SendDispatcher::<.*>::dispatch_seq$')):
+        o = straight(ctx, key, ctx.one(D, nm), 'Dispatcher::' + nm)
+        if o:
+            cs = match_calls(ctx, key, 'Dispatcher::' + nm, o, [tgt])
+            if cs:
+                arg_is(ctx, key, nm, cs[0], 0, self_field(i_in))
+    loop_spec(ctx, key, 'Dispatcher::dispatch_thread_local', ctx.one(D, 'dispatch_thread_local'), [], r'as IntoIterator>::into_iter$', self_field(i_tl),
+              r"^<dyn for<'_> RunNow<'_> as RunNow<'_>>::run_now$", [P(2)])
+    key = 'dispatcher-setup-dispose'
+    loop_spec(ctx, key, 'Dispatcher::setup', ctx.one(D, 'setup'), [r'^SendDispatcher::<.*>::setup$'], r'as IntoIterator>::into_iter$', self_field(i_tl),
+              r"^<dyn for<'_> RunNow<'_> as RunNow<'_>>::setup$", [P(2)])
+    loop_spec(ctx, key, 'Dispatcher::dispose', ctx.one(D, 'dispose'), [r'^SendDispatcher::<.*>::dispose$'], r'as IntoIterator>::into_iter$', self_field(i_tl, False),
+              r"^<dyn for<'_> RunNow<'_> as RunNow<'_>>::dispose$", [P(2)])
+    key = 'dispatcher-sendable'
+    outs = ctx.run(ctx.one(D, 'try_into_sendable'))
+    rets = returns(outs)
+    ok = len(rets) == 2 and len(outs) == 2
+    ctx.ob(key, 'try_into_sendable: exactly two outcomes', ok, str([(o.kind, o.st.decisions) for o in outs]))
+    if ok:
+        for o in rets:
+            emp = [e for e in sig(o) if re.search(r'SmallVec::<.*>::is_empty$', e.callee)]
+            ok1 = len(emp) == 1 and len(sig(o)) == 1 and ctx.valid('tis arg', emp[0].args[0] == M.f_ref(M.f_fld(z3.Const('local__1', V), i_tl)))
+            ctx.ob(key, 'try_into_sendable: decides on thread_local.is_empty() of this dispatcher and nothing else', ok1, str([e.callee for e in sig(o)]))
+            if not ok1:
+                continue
+            dec = o.st.decisions[-1][1]
+            if dec == 0:       # not empty
+                ok2 = isinstance(o.value, Agg) and o.value.variant == 'Err' and ctx.valid('err', to_term(o.value.fields[0]) == P(1))
+                ctx.ob(key, 'try_into_sendable: thread-local systems present => Err(the same dispatcher)', ok2, repr(o.value))
+            else:
+                ok2 = isinstance(o.value, Agg) and o.value.variant == 'Ok' and ctx.valid('okv', to_term(o.value.fields[0]) == M.f_fld(P(1), i_in))
+                ctx.ob(key, 'try_into_sendable: no thread-local systems => Ok(the inner send-dispatcher, plan untouched)', ok2, repr(o.value))
+    # SendDispatcher
+    S = r'^src/dispatch/send_dispatcher.rs: impl SendDispatcher<'
+    i_st = fidx('src/dispatch/send_dispatcher.rs', 'SendDispatcher', 'stages')
+    key = 'send-dispatcher'
+    o = straight(ctx, key, ctx.one(S, 'dispatch'), 'SendDispatcher::dispatch')
+    if o:
+        cs = match_calls(ctx, key, 'SendDispatcher::dispatch (parallel feature)', o, [r'^SendDispatcher::<.*>::dispatch_par$'])
+        if cs:
+            arg_is(ctx, key, 'dispatch', cs[0], 0, P(1)); arg_is(ctx, key, 'dispatch', cs[0], 1, P(2))
+    loop_spec(ctx, key, 'SendDispatcher::setup', ctx.one(S, 'setup'), [], r'as IntoIterator>::into_iter$', self_field(i_st), r'^Stage::<.*>::setup$', [P(2)])
+    loop_spec(ctx, key, 'SendDispatcher::dispose', ctx.one(S, 'dispose'), [], r'as IntoIterator>::into_iter$', self_field(i_st, False), r'^Stage::<.*>::dispose$', [P(2)])
+    loop_spec(ctx, key, 'SendDispatcher::dispatch_seq', ctx.one(S, 'dispatch_seq'), [], r'as IntoIterator>::into_iter$', self_field(i_st), r'^Stage::<.*>::execute_seq$', [P(2)])
+    # RunNow for Dispatcher / SendDispatcher
+    for hdr, ty in ((r"^src/dispatch/dispatcher.rs: impl RunNow<'_> for Dispatcher", 'Dispatcher'), (r"^src/dispatch/send_dispatcher.rs: impl RunNow<'_> for SendDispatcher", 'SendDispatcher')):
+        for nm in ('run_now', 'setup', 'dispose'):
+            tgt = {'run_now': 'dispatch', 'setup': 'setup', 'dispose': 'dispose'}[nm]
+            outs = ctx.run(ctx.one(hdr, nm))
+            rets = returns(outs)
+            ok = len(rets) >= 1 and all(len([e for e in sig(r) if re.search(r'^%s::<.*>::%s$' % (ty, tgt), e.callee)]) == 1 for r in rets)
+            ctx.ob('runnow-dispatchers', '<%s as RunNow>::%s forwards to %s::%s exactly once' % (ty, nm, ty, tgt), ok, str([[e.callee for e in sig(r)] for r in rets][:2]))
+
+
+def spec_multidispatcher(ctx):
+    key = 'multi-dispatcher'
+    f = ctx.one(r"BatchController<'a, 'b, 'c> for MultiDispatcher<C>", 'run')
+    outs = ctx.run(f)
+    rets = returns(outs)
+    ctx.ob(key, 'MultiDispatcher::run: only normal paths', len(rets) >= 3 and all(o.kind in ('return', 'bound') for o in outs))
+    ok_all = True
+    for o in rets:
+        cs = sig(o)
+        pats = [r'World::system_data::<', r"^<C as MultiDispatchController<'_>>::plan$", r'<std::ops::Range<usize> as IntoIterator>::into_iter$']
+        ok = len(cs) >= 4 and all(re.search(p, e.callee) for e, p in zip(cs, pats))
+        if ok:
+            rng = cs[2].argvals[0]
+            ok = isinstance(rng, Agg) and isinstance(rng.fields[0], Cst) and rng.fields[0].text.startswith('0_usize') and ctx.valid('n', to_term(rng.fields[1]) == cs[1].result) \
+                and ctx.valid('plan data', cs[1].args[1] == cs[0].result) and ctx.valid('sd world', cs[0].args[0] == P(2))
+        rest = cs[3:] if ok else []
+        k = 0
+        while ok and k < len(rest):
+            if not re.search(r'<std::ops::Range<usize> as Iterator>::next$', rest[k].callee):
+                ok = False
+            elif k + 1 < len(rest):
+                b = rest[k + 1]
+                ok = re.search(r'^Dispatcher::<.*>::dispatch$', b.callee) is not None and ctx.valid('md d', b.args[0] == P(3)) and ctx.valid('md w', b.args[1] == P(2))
+            k += 2
+        if not ok:
+            ok_all = False
+            ctx.ob(key, 'MultiDispatcher::run: n = plan(world.system_data()); for _ in 0..n { dispatcher.dispatch(world) }', False, str([e.callee[:60] for e in cs]))
+            break
+    if ok_all:
+        ctx.ob(key, 'MultiDispatcher::run: n = plan(world.system_data()); exactly one inner dispatch per element of 0..n, nothing else', True)
+
+
+def spec_stage_exec(ctx):
+    """Stage::execute / execute_seq / SendDispatcher::dispatch_par structure (C01 C04 C11)."""
+    key = 'stage-execute'
+    ST = r"^src/dispatch/stage.rs: impl Stage<'_>"
+    i_g = fidx('src/dispatch/stage.rs', 'Stage', 'groups')
+    o = straight(ctx, key, ctx.one(ST, 'execute'), 'Stage::execute')
+    if o:
+        cs = match_calls(ctx, key, 'Stage::execute', o, [r'as (rayon::iter::)?IntoParallelRefMutIterator<\'_>>::par_iter_mut$', r'as (rayon::iter::)?ParallelIterator>::for_each::<\{closure@src/dispatch/stage.rs'],
+                         noise=NOISE)
+        if cs:
+            ctx.ob(key, 'Stage::execute: the groups of this stage are handed to ONE parallel for_each (each group one job)', ctx.valid('pi', cs[1].args[0] == cs[0].result))
+            cl = cs[1].argvals[1]
+            ok = isinstance(cl, Agg) and len(cl.fields) == 1 and ctx.valid('cl world', to_term(cl.fields[0]) == M.f_ref(z3.Const('local__2', V))) or \
+                (isinstance(cl, Agg) and len(cl.fields) == 1 and ctx.valid('cl world', to_term(cl.fields[0]) == P(2)))
+            ctx.ob(key, 'Stage::execute: the job closure captures only the world', ok, repr(cl))
+    cl = [f for f in ctx.fns() if f.name.endswith('::execute::{closure#0}') and 'stage.rs' in f.name]
+    if len(cl) == 1:
+        loop_spec(ctx, key, 'Stage::execute job', cl[0], [], r'as IntoIterator>::into_iter$', P(2), r"^<dyn for<'_> RunNow<'_> \+ Send as RunNow<'_>>::run_now$", [])
+    else:
+        ctx.ob(key, 'Stage::execute job closure found', False)
+    o = straight(ctx, key, ctx.one(ST, 'max_threads'), 'Stage::max_threads')
+    if o:
+        cs = match_calls(ctx, key, 'Stage::max_threads', o, [r'SmallVec::<.*>::len$'])
+        if cs:
+            arg_is(ctx, key, 'max_threads', cs[0], 0, self_field(i_g))
+            ctx.ob(key, 'Stage::max_threads = number of groups', ctx.valid('mt', to_term(o.value) == cs[0].result))
+    key = 'send-dispatch-par'
+    S = r'^src/dispatch/send_dispatcher.rs: impl SendDispatcher<'
+    i_tp = fidx('src/dispatch/send_dispatcher.rs', 'SendDispatcher', 'thread_pool')
+    i_st = fidx('src/dispatch/send_dispatcher.rs', 'SendDispatcher', 'stages')
+    outs = ctx.run(ctx.one(S, 'dispatch_par'))
+    rets = returns(outs)
+    ok = len(rets) == 1
+    ctx.ob(key, 'dispatch_par: one normal path', ok, str([(o.kind, o.detail) for o in outs]))
+    if ok:
+        o = rets[0]
+        inst = [e for e in sig(o) if re.search(r'ThreadPool::install::<\{closure@src/dispatch/send_dispatcher.rs', e.callee)]
+        rd = [e for e in sig(o) if re.search(r'RwLock::<.*>::read$', e.callee)]
+        ok = len(inst) == 1 and len(rd) == 1 and not [e for e in sig(o) if re.search(r'Stage::<.*>::execute|ThreadPoolBuilder', e.callee)]
+        ctx.ob(key, 'dispatch_par: everything runs inside ONE install on the pool read from this dispatcher\'s shared handle', ok, str([e.callee[:70] for e in sig(o)]))
+        if ok:
+            cl = inst[0].argvals[1]
+            ok2 = isinstance(cl, Agg) and len(cl.fields) == 2 and any(ctx.valid('cl stages', to_term(x) == self_field(i_st)) for x in cl.fields) and any(ctx.valid('cl world', to_term(x) == P(2)) for x in cl.fields)
+            ctx.ob(key, 'dispatch_par: the installed closure captures this dispatcher\'s stages and the world', ok2, repr(cl))
+    cl = [f for f in ctx.fns() if f.name.endswith('::dispatch_par::{closure#0}') and 'send_dispatcher.rs' in f.name]
+    if len(cl) == 1:
+        loop_spec(ctx, key, 'dispatch_par body', cl[0], [], r'as IntoIterator>::into_iter$', M.f_fld(P(1), 0), r'^Stage::<.*>::execute$', [M.f_fld(P(1), 1)])
+    o = None
+    f = ctx.one(BUILDER, 'create_thread_pool')
+    outs = ctx.run(f)
+    rets = returns(outs)
+    if rets:
+        names = [e.callee for e in sig(rets[0])]
+        ok = any(re.search(r'ThreadPoolBuilder::new$', n) for n in names) and any(re.search(r'ThreadPoolBuilder::build$', n) for n in names) and not any(re.search(r'num_threads|stack_size|build_global', n) for n in names)
+        ctx.ob('default-pool', 'create_thread_pool: default rayon configuration (no explicit thread count)', ok, str(names))
+    o = straight(ctx, 'default-pool', ctx.one(BUILDER, 'build'), 'DispatcherBuilder::build')
+    if o:
+        cs = sig(o)
+        g = [e for e in cs if re.search(r'get_or_insert_with::<fn\(\) -> Arc<(rayon::)?ThreadPool> \{DispatcherBuilder::<.*>::create_thread_pool\}>$', e.callee)]
+        nd = [e for e in cs if re.search(r'^new_dispatcher$', e.callee)]
+        sbb = [e for e in cs if re.search(r'^StagesBuilder::<.*>::build$', e.callee)]
+        i_sb = fidx('src/dispatch/builder.rs', 'DispatcherBuilder', 'stages_builder')
+        i_tl = fidx('src/dispatch/builder.rs', 'DispatcherBuilder', 'thread_local')
+        i_tp2 = fidx('src/dispatch/builder.rs', 'DispatcherBuilder', 'thread_pool')
+        ok = len(g) == 1 and len(nd) == 1 and len(sbb) == 1 and ctx.valid('b1', sbb[0].args[0] == M.f_fld(P(1), i_sb)) and ctx.valid('b2', nd[0].args[0] == sbb[0].result) \
+            and ctx.valid('b3', nd[0].args[1] == M.f_fld(P(1), i_tl)) and ctx.valid('b4', nd[0].args[2] == M.f_fld(P(1), i_tp2)) and ctx.valid('b5', to_term(o.value) == nd[0].result)
+        ctx.ob('default-pool', 'build: keeps a user pool (get_or_insert_with), passes the planned stages, the thread-local list and the shared pool handle to new_dispatcher', ok, str([e.callee[:60] for e in cs]))
+    o = straight(ctx, 'default-pool', ctx.one(SB, 'build'), 'StagesBuilder::build')
+    if o:
+        ctx.ob('default-pool', 'StagesBuilder::build returns the executed list it accumulated', not sig(o) and ctx.valid('sbb', to_term(o.value) == M.f_fld(P(1), fidx('src/dispatch/stage.rs', 'StagesBuilder', 'stages'))), repr(o.value))
+    nd = [f for f in ctx.fns() if f.name == 'new_dispatcher']
+    if len(nd) == 1:
+        o = straight(ctx, 'default-pool', nd[0], 'new_dispatcher')
+        if o:
+            v = o.value
+            ok = isinstance(v, Agg) and not sig(o)
+            if ok:
+                inner = v.fields[fidx('src/dispatch/dispatcher.rs', 'Dispatcher', 'inner')]
+                ok = isinstance(inner, Agg) and ctx.valid('nd1', to_term(inner.fields[i_st]) == P(1)) and ctx.valid('nd3', to_term(inner.fields[i_tp]) == P(3)) \
+                    and ctx.valid('nd2', to_term(v.fields[fidx('src/dispatch/dispatcher.rs', 'Dispatcher', 'thread_local')]) == P(2))
+            ctx.ob('default-pool', 'new_dispatcher stores stages, thread-local list and pool handle unchanged', ok, repr(v))
+
+
+def spec_add_thread_local(ctx):
+    key = 'builder-thread-local'
+    i_tl = fidx('src/dispatch/builder.rs', 'DispatcherBuilder', 'thread_local')
+    o = straight(ctx, key, ctx.one(BUILDER, 'add_thread_local'), 'add_thread_local')
+    if o:
+        cs = match_calls(ctx, key, 'add_thread_local', o, [r'^Box::<T>::new$', r'^SmallVec::<.*>::push$'])
+        if cs:
+            ok = ctx.valid('tl1', cs[0].args[0] == P(2)) and ctx.valid('tl2', cs[1].args[0] == self_field(i_tl)) and ctx.valid('tl3', cs[1].args[1] == cs[0].result)
+            ctx.ob(key, 'add_thread_local appends the boxed system to the thread-local list (registration order, never planned)', ok)
+
+
+def spec_async_wait(ctx):
+    """C12 (async part): wait() = take the state back, then run every thread-local system on the caller."""
+    key = 'async-wait'
+    A = r'^src/dispatch/async_dispatcher.rs: impl<\'a, R> AsyncDispatcher<\'a, R>'
+    fs = ctx.find(A, 'wait', optional=True)
+    if len(fs) != 1:
+        fs = [f for f in ctx.fns() if f.short == 'wait' and 'async_dispatcher.rs' in f.name]
+    if len(fs) != 1:
+        raise M.Unsupported('AsyncDispatcher::wait not found')
+    outs = ctx.run(fs[0])
+    rets = returns(outs)
+    ok_all = len(rets) >= 3
+    for o in rets:
+        cs = sig(o)
+        inner = [i for i, e in enumerate(cs) if re.search(r'Data::<.*>::inner$|async_dispatcher::Data::<.*>::inner$', e.callee)]
+        it = [i for i, e in enumerate(cs) if re.search(r'as IntoIterator>::into_iter$', e.callee)]
+        if len(inner) != 1 or len(it) != 1 or not inner[0] < it[0]:
+            ok_all = False
+            ctx.ob(key, 'AsyncDispatcher::wait: every path first takes the state back (blocking) and then walks the thread-local list', False, str([e.callee[:60] for e in cs]))
+            break
+        rest = cs[it[0] + 1:]
+        k, ok = 0, True
+        while k < len(rest):
+            if not re.search(r'as Iterator>::next$', rest[k].callee):
+                ok = False
+            elif k + 1 < len(rest) and not re.search(r"RunNow<'_>>::run_now$", rest[k + 1].callee):
+                ok = False
+            k += 2
+        if not ok:
+            ok_all = False
+            ctx.ob(key, 'AsyncDispatcher::wait: one run_now per thread-local system', False, str([e.callee[:60] for e in cs]))
+            break
+    if ok_all:
+        ctx.ob(key, 'AsyncDispatcher::wait: on every path the state is taken back first, then each thread-local system runs exactly once on the caller', True)
+
+
+SPECS.update({
+    'C02': [('DispatcherBuilder::add resolves names to ids', spec_add)],
+    'C03': [('add_barrier forwards / sets the barrier index', spec_add_barrier)],
+    'C04': [('dispatch fan-out forwarders', spec_forwarders), ('MultiDispatcher::run', spec_multidispatcher), ('batch wrapper', spec_batch_wrapper),
+            ('Stage::execute / dispatch_par structure', spec_stage_exec), ('add_batch registers the wrapper', spec_add_batch)],
+    'C07': [('add_batch freezes the union', spec_add_batch), ('batch wrapper reports it', spec_batch_wrapper)],
+    'C11': [('parallel region structure / pool handling', spec_stage_exec), ('add_batch shares the pool', spec_add_batch)],
+    'C12': [('dispatch = parallel part then thread-local; conversion', spec_forwarders), ('add_thread_local', spec_add_thread_local), ('AsyncDispatcher::wait', spec_async_wait)],
+    'C13': [('setup/dispose fan-out forwarders', spec_forwarders), ('batch wrapper setup/dispose', spec_batch_setup_dispose)],
+    'C18': [('DispatcherBuilder::add: the two rejections', spec_add), ('add_barrier / add_thread_local have no panic of their own', spec_add_barrier), ('add_thread_local', spec_add_thread_local)],
+})
